@@ -324,6 +324,9 @@ structure Tok where
   text : List Char
   quoted : Bool
   space : Bool
+  /-- oracle: `unicode.IsLetter(r) || unicode.IsDigit(r)` for the FIRST rune of the text (Go's own answer, supplied
+  by the harness); only consulted when that rune is not ASCII -/
+  letter : Bool
 deriving DecidableEq, Repr
 
 /-- ASCII lower-casing (kept for the statements about ASCII spellings) -/
@@ -342,9 +345,12 @@ def foldText (s : List Char) : List Char := s.map foldChar
 /-- `lexer.IsKeyword(kw)` for a lower-case ASCII keyword: never a quoted token, otherwise `strings.EqualFold` -/
 def isKeyword (t : Tok) (kw : List Char) : Bool := !t.quoted && foldText t.text == kw
 
-/-- `isTokenRune` (letters, digits, `_`, `.`); non-ASCII characters are taken as letters - the generators use
-non-ASCII letters only (non-ASCII symbols such as `€` are outside the model) -/
-def isTokenChar (c : Char) : Bool := c.isAlphanum || c == '_' || c == '.' || c.toNat ≥ 128
+/-- `isTokenRune` on an ASCII character: letters, digits, `_`, `.` -/
+def isTokenChar (c : Char) : Bool := c.isAlphanum || c == '_' || c == '.'
+
+/-- `isTokenRune` of the first rune `c` of token `t`: computed for ASCII, the token's unicode oracle otherwise
+(`€`, `—`, `™`, an emoji are no letters: not token runes; `é`, `ж`, `中`, `٣` are) -/
+def firstTokenRune (t : Tok) (c : Char) : Bool := if c.toNat < 128 then isTokenChar c else t.letter
 
 def utf8Len (s : List Char) : Nat := (s.map Char.utf8Size).sum
 
@@ -353,7 +359,7 @@ byte after its first rune, or a single letter / digit / `_` / `.` / `-` / `*` -/
 def isComposite (t : Tok) : Bool :=
   match t.text with
   | [] => t.quoted                       -- unquoted empty token = end of query
-  | c :: rest => decide (utf8Len rest > 1) || t.quoted || isTokenChar c || c == '-' || c == '*'
+  | c :: rest => decide (utf8Len rest > 1) || t.quoted || firstTokenRune t c || c == '-' || c == '*'
 
 /-- the tokens glued to a first composite token: those that follow WITHOUT white space and are composite -/
 def joinComposite (acc : List Char) : List Tok → List Char × List Tok
